@@ -67,6 +67,24 @@ def correspondence(r):
     for b in bad[:5]:
         r.violation({"component": "int2magic", "input": ints[b], "impl": res[b], "model": "Model.Magic.int2magic differs (see coq/Model/Magic.v)",
                      "theorem": "C08_inverse_int is about the model; impl disagrees with model on this input"})
+    # executed, not only tabulated: a file that loads can be disassembled whatever its NAME says about PyPy, and sysinfo2magic() as a
+    # function gives the table's magic for every final and release-candidate version_info the tables name
+    for k, fname, nm in gen.get("get_opcode_named", []):
+        r.case(("named", k, fname), nontrivial=True)
+        r.count("get_opcode-by-name:" + ("ok" if nm else "FAILS"))
+        if nm is None:
+            r.violation({"component": "load.is_pypy + get_opcode", "magic": k, "file_name": fname,
+                         "why": "a file with this magic and name loads (the magic resolves and has an opcode table under an ordinary name) but get_opcode raises for the "
+                                "variant is_pypy() derives from the name: it can be loaded and not disassembled"})
+            break
+    nbad = 0
+    for name, info, got, want in gen.get("sysinfo2magic_calls", []):
+        r.case(("sysinfo", name), nontrivial=True)
+        r.count("sysinfo2magic:" + ("ok" if got == want else "differs"))
+        if got != want and nbad < 3:
+            nbad += 1
+            r.violation({"component": "magics.sysinfo2magic", "version_info": info, "release_name_in_tables": name, "returned": got, "table_magic_of_that_release": want,
+                         "why": "sysinfo2magic(version_info) does not give the magic the tables record for that release"})
     # magic2int on byte strings of length 0..6
     bss = [[], [1], [1, 2, 3], [1, 2, 3, 4, 5], [0x99, 0x02, 0x99, 0x00], [0xcb, 0x0d, 13, 10]]
     for _ in range(600 if r.tier == "quick" else 5000):
